@@ -7,7 +7,8 @@ PID = 'C02'
 LEVEL = 'model_checking'
 TECHNIQUE = 'bounded-exhaustive enumeration of aggregation/combine/negation programs x all small databases (empty groups, ties, nulls), real pipeline on SQLite vs a reference evaluator'
 ASSUMPTIONS = ['under-specified corners of DESIGN 2.4 are not compared: a key-less aggregating predicate over no solution, Count over no solution, element order of List/Set, tied ArgMin/ArgMax candidates (any admissible answer accepted)',
-               'null only as aggregated input / is-null operand / pass-through column']
+               'null only as aggregated input / is-null operand / pass-through column',
+               'beyond the small grammars only by representatives: 145 databases with values -1, 0, 10, 0.5, and the WIDEAGG family (13-column grouped heads, 11 combines in one rule, 4 levels of combine / negation nesting, chains of 5 grouping predicates, groups of 6-36 members with duplicates and 2-digit values)']
 
 _CASES = None
 
@@ -116,4 +117,4 @@ LEVEL_TEXT = ('Every program of the AGGH (predicate-level aggregation incl. mult
               'conjunctions, double negation, implication, negation inside combine and vice versa) grammars is run through the real pipeline on SQLite over all small databases '
               'incl. empty groups, ties and null-bearing value columns and compared with the reference evaluator.')
 LEVEL_NOTE = ('Trusted: printer + reference evaluator incl. its scoping rule for combine/negation-local variables, SQLite. Bounded: bodies of <=3 literals, nesting <=2, <=2 rows/table '
-              '(+ fixed tie/null databases). Known deviations of SQLite List/Set are listed in known_findings.json.')
+              '(+ fixed tie/null/other-value databases and the WIDEAGG representatives). Known deviations of SQLite List/Set are listed in known_findings.json.')
